@@ -535,6 +535,45 @@ pub fn s_params(thorough: bool) -> Vec<(SP, usize)> {
         (SP { g: g4.clone(), roots: vec![1, 2], inputs: [0, 0], join: vec![], spawn: vec![], detach: vec![] }, d(2, 3)),
         (SP { g: g4, roots: vec![3, 2], inputs: [0, 0], join: vec![], spawn: vec![], detach: vec![] }, d(2, 2)),
     ]
+    .into_iter()
+    .chain(d_params(thorough))
+    .collect()
+}
+
+/// Executors that hand their reads to helper tasks and return without
+/// joining them (the engine waits for the helpers before it publishes): the
+/// helper of node 0 closes the cycle after node 0's executor has returned.
+pub fn d_params(thorough: bool) -> Vec<(SP, usize)> {
+    use E::*;
+    let g2 = G { n: 2, adj: vec![vec![No, Fixed], vec![Fixed, No]], fw: vec![false, false] };
+    let g3 = G {
+        n: 3,
+        adj: vec![vec![No, Fixed, No], vec![No, No, Fixed], vec![Fixed, No, No]],
+        fw: vec![false, false, false],
+    };
+    // no cycle: 0 -detached-> 1, 2 -> 0 (a consumer of a node with a late helper)
+    let g3c = G {
+        n: 3,
+        adj: vec![vec![No, Fixed, No], vec![No, No, No], vec![Fixed, No, No]],
+        fw: vec![false, false, false],
+    };
+    let d = |q: usize, t: usize| if thorough { t } else { q };
+    vec![
+        (SP { g: g2.clone(), roots: vec![0], inputs: [0, 0], join: vec![], spawn: vec![], detach: vec![0] }, d(2, 3)),
+        (SP { g: g2, roots: vec![0, 1], inputs: [0, 0], join: vec![], spawn: vec![], detach: vec![0] }, d(2, 3)),
+        (SP { g: g3.clone(), roots: vec![0], inputs: [0, 0], join: vec![], spawn: vec![], detach: vec![0] }, d(2, 3)),
+        (SP { g: g3, roots: vec![1, 0], inputs: [0, 0], join: vec![], spawn: vec![], detach: vec![0, 1] }, d(1, 2)),
+        (SP { g: g3c, roots: vec![2, 1], inputs: [0, 0], join: vec![], spawn: vec![], detach: vec![0] }, d(2, 3)),
+    ]
+}
+
+pub fn child_d(idx: usize) {
+    let thorough = crate::report::tier() == "thorough";
+    let (p, d) = d_params(thorough)[idx].clone();
+    let mut cfg = xplore::Cfg::new(d);
+    cfg.max_failures = 1000;
+    let o = xplore::explore_parallel(&cfg, crate::report::threads(), s_scenario(p));
+    crate::report::emit_child_result(&o.to_json());
 }
 
 pub fn child_s(idx: usize) {
@@ -800,8 +839,9 @@ pub fn check() -> i32 {
 
 pub fn replay(v: &Value) -> i32 {
     let thorough = v["thorough"].as_bool().unwrap_or(false);
-    if v["check"] == "c06s" {
-        let (p, _) = s_params(thorough)[v["scenario_index"].as_u64().unwrap() as usize].clone();
+    if v["check"] == "c06s" || v["check"] == "c06d" {
+        let list = if v["check"] == "c06d" { d_params(thorough) } else { s_params(thorough) };
+        let (p, _) = list[v["scenario_index"].as_u64().unwrap() as usize].clone();
         let s = sched_from_json(&v["schedule"]);
         let o1 = xplore::replay(&s, s_scenario(p.clone()));
         let o2 = xplore::replay(&s, s_scenario(p));
